@@ -11,6 +11,8 @@
    so that  Peek = hd EOF rest,  Peek2 = nth 1 rest EOF,  and  Next  moves to (hd EOF rest, pos+1, tl rest).
    As in Go, reading past the end yields RuneEOF (parseString then reports "incomplete string").
 
+   REPAIRED CODE (repair 7640347): the escape machine stops before a CR / LF (the unfinished escape is kept literally and
+   parseString reads the break and records the line); on the pinned tree it consumed the break without recording a line.
    REPAIRED CODE (findings/C13.md, fixes/C13-1.patch): the pinned tree has RuneEOF = 0, i.e. the character NUL
    (U+0000) doubles as the end-of-input mark, so a terminated literal containing a NUL is rejected as "incomplete
    string" (and a NUL outside a literal silently ends the program).  The model follows the repaired lexer, in which
@@ -138,6 +140,10 @@ Fixpoint esc_loop (cur : Z) (s : est) (hexCount : Z) (buf : list Z) (n : Z) (res
     (* tokens.go:716-727 *)
     if (cur =? BT) && (peek2 rest =? BT) then ([peek rest], n + 2, tl (tl rest))
     else (buf, n, rest)
+  else if (peek rest =? CR) || (peek rest =? LF) then
+    (* tokens.go:727-729 (repair 7640347): a line break ends the escape attempt (goto UNDONE_end: the buffer is kept
+       as it is, the cursor stays before the break); the break is left to parseString, which records the new line *)
+    (buf, n, rest)
   else
     match rest with
     | [] => (buf, n, [])       (* end of the source: the machine does not step over it (fixes/C05-1-escape-at-eof.patch;
@@ -263,8 +269,9 @@ Definition run_lex (src : list Z) : list Z :=
   | OutOfFuel => [3]
   end.
 
-(* was a CR/LF consumed by the escape machine (kept in the value, but no line is recorded: matters to C18 only)?
-   the comparison does not judge the recorded lines of such inputs *)
+(* number of CR/LF in a text.  (Before repair 7640347 the escape machine could consume a CR/LF - kept in the value, but no
+   line recorded - and the comparison did not judge the recorded lines of such inputs; the machine now stops before a
+   line break, see esc_loop.) *)
 Fixpoint count_breaks (l : list Z) : Z :=
   match l with [] => 0 | x :: t => (if (x =? CR) || (x =? LF) then 1 else 0) + count_breaks t end.
 
